@@ -96,6 +96,8 @@ def build(clsname, bits, route='bin', pos=None):
         o.pos = pos
     return o
 
+ITERATOR_KINDS = ['gen', 'iter', 'map', 'list_truthy', 'gen_truthy', 'iter_truthy']
+
 def promotable(bits, kind):
     """A non-bitstring operand holding `bits`."""
     import bitarray
@@ -108,4 +110,13 @@ def promotable(bits, kind):
         return int(bits, 2).to_bytes(len(bits) // 8, 'big') if bits else b''
     if kind == 'bytearray':
         return bytearray(promotable(bits, 'bytes'))
+    # one-shot iterators; the "truthy" ones hold items that are true/false without being 0, 1, True or False (documented: any iterable, item -> bool(item))
+    TRUE = [1, True, 5, -1, 'x', 2.5, (0,), 1, True, 7]
+    FALSE = [0, False, None, '', 0.0, (), 0, False, 0, []]
+    if kind == 'gen': return (int(c) for c in bits)
+    if kind == 'iter': return iter([c == '1' for c in bits])
+    if kind == 'map': return map(int, bits)
+    if kind == 'list_truthy': return [(TRUE if c == '1' else FALSE)[(i * 7 + 3) % 10] for i, c in enumerate(bits)]
+    if kind == 'gen_truthy': return ((TRUE if c == '1' else FALSE)[(i * 7 + 3) % 10] for i, c in enumerate(bits))
+    if kind == 'iter_truthy': return iter(promotable(bits, 'list_truthy'))
     raise AssertionError(kind)
